@@ -18,7 +18,8 @@ RULE = ("caption sets of 1-6 cues per language with strictly increasing starts, 
         "of DFXP and SAMI. After every hop: cue count, whitespace-normalised lines, and "
         "floor(t/res) of starts/ends (res = 1 ms, 40 ms once MicroDVD was on the chain; ends of "
         "a language's last cue not compared once SAMI was on the chain). Non-trivial: >= 2 cues "
-        "and >= 2 different formats on the chain.")
+        "and >= 2 different formats on the chain. "
+        'Chains may run with one pooled reader and writer object per format. ')
 ASSUMPTIONS = [
     "hops use pycaption's own writer and reader of the format with default options",
     "a cue lying wholly inside MicroDVD frame 0 ({0}{0}) is outside the domain (durations >= 40 ms)",
